@@ -104,7 +104,7 @@ def property_setter_targets(P, c, attr):
     return None
 
 
-def check_ts_machinery(P, R, rid):
+def check_ts_machinery(P, R, rid, per_instance=True):
     """the decorator itself: listed names become properties over a threading.local reached through the instance"""
     w = P.func(f'{CH}:ts_props.wrapper')
     iw = P.func(f'{CH}:ts_props.wrapper.init_wrapper')
@@ -150,8 +150,14 @@ def check_ts_machinery(P, R, rid):
         else:
             det = (f'the store attached to each instance is `{short(x)}`, a variable of the decorator scope: one threading.local per '
                    f'*class*, shared by all instances on a thread')
-    R.ob(rid, iw, sets[0] if sets else iw.node, ok, text='setattr(self, store_name, threading.local())  [per instance]', detail=det,
-         why='two instances on one thread (two applications, Request.copy()) would read and write the same per-thread values')
+    if per_instance:
+        R.ob(rid, iw, sets[0] if sets else iw.node, ok, text='setattr(self, store_name, threading.local())  [per instance]', detail=det,
+             why='two instances on one thread (two applications, Request.copy()) would read and write the same per-thread values')
+    else:
+        # for one application only the *kind* of store matters: a threading.local, wherever it is allocated
+        tl = bool(sets) and any(isinstance(x, ast.Call) and dotted(x.func) == 'threading.local' for x in ast.walk(w.node))
+        R.ob(rid, iw, sets[0] if sets else iw.node, tl, text='the store attached to the instance is a threading.local', detail='' if tl else
+             'the store behind the thread-local properties is not a threading.local')
     inits = [x for x in ast.walk(iw.node) if isinstance(x, ast.Call) and dotted(x.func) == 'setattr' and len(x.args) == 3
              and is_const(x.args[2], None) and 'props' in src(enclosing(x, (ast.ListComp, ast.For)) or x)]
     R.ob(rid, iw, inits[0] if inits else iw.node, bool(inits), text='every listed attribute initialised on this thread\'s store',
@@ -165,7 +171,7 @@ def check(P, R):
     R.rule('C08.d', 'no other shared location is written', floor=2)
 
     # ---- a
-    check_ts_machinery(P, R, 'C08.a')
+    check_ts_machinery(P, R, 'C08.a', per_instance=False)
     resp = P.cls(f'{RS}:Response')
     props, store = ts_props_of(resp)
     slots = set(slots_of(P, resp))
@@ -252,4 +258,4 @@ def check(P, R):
     c09.check_init_dominance(P, R, 'C08.c')
 
     # ---- d
-    c09.check_shared_writes(P, R, 'C08.d', strict=True)
+    c09.check_shared_writes(P, R, 'C08.d', strict=True, same_for_all_threads_ok=True)
